@@ -169,18 +169,17 @@ func (ch *Channel) runWriter(writerTerminate chan struct{}) error {
 	for {
 		select {
 		case what := <-ch.chWrite:
+			// a write error is not fatal: the item is discarded and the writer
+			// keeps serving the queue, otherwise the channel would stay open
+			// while silently dropping everything that is written afterwards.
+			// if the error is caused by the transport, the reader will detect it
+			// and close the channel.
 			switch wh := what.(type) {
 			case message.Message:
-				err := ch.streamWriter.Write(wh)
-				if err != nil {
-					return err
-				}
+				ch.streamWriter.Write(wh) //nolint:errcheck
 
 			case frame.Frame:
-				err := ch.frameWriter.Write(wh)
-				if err != nil {
-					return err
-				}
+				ch.frameWriter.Write(wh) //nolint:errcheck
 			}
 
 		case <-writerTerminate:
